@@ -10,6 +10,7 @@ EXTENDS Features, TLC, Json
 CONSTANTS MaxFields, MaxWeight,        \* exploration bounds
           MinFields, MinWeight,        \* export only file values at least this large (simulation: the dense ones)
           SynSet, ScopeSet, TypeSet,   \* subsets of Syntaxes / Scopes / Types to explore
+          FeatSet,                     \* subset of FN that SetLevel / SetFieldOv may override (FN, or a family such as presence x enum openness)
           MaxBroken                    \* 0: only Valid file values; 1: also those breaking exactly one resolved-feature rule
 VARIABLE F
 vars == <<F>>
@@ -38,14 +39,14 @@ AddField == /\ Len(F.fields) < MaxFields
             /\ \E s \in BaseShapes(F.syntax) : F' = [F EXCEPT !.fields = Append(@, s)]
 
 SetLevel == /\ F.syntax = "editions"
-            /\ \E lvl \in {"fov", "eov", "neov", "mov", "nov"} : \E f \in FN : \E v \in Values(f) :
+            /\ \E lvl \in {"fov", "eov", "neov", "mov", "nov"} : \E f \in FeatSet : \E v \in Values(f) :
                  /\ f \notin DOMAIN F[lvl]
                  /\ LevelKind(lvl) \in Targets(f)
                  /\ ~(lvl = "fov" /\ v = "LEGACY_REQUIRED")
                  /\ F' = [F EXCEPT ![lvl] = With(@, f, v)]
 
 SetFieldOv == /\ F.syntax = "editions"
-              /\ \E k \in Idx(F) : \E f \in FN : \E v \in Values(f) :
+              /\ \E k \in Idx(F) : \E f \in FeatSet : \E v \in Values(f) :
                    LET s2 == [F.fields[k] EXCEPT !.ov = With(@, f, v)] IN
                    /\ f \notin DOMAIN F.fields[k].ov
                    /\ ShapeOK(F.syntax, s2)
